@@ -130,6 +130,7 @@ NoInterPod(p) == p.aff = <<>> /\ p.anti = <<>> /\ p.prefAff = <<>> /\ p.prefAnti
 ExactScenario(cfg) ==
     /\ \A p \in Range(cfg.pods) : NoInterPod(p)
     /\ \A t \in Range(cfg.types) : \A i \in DOMAIN t.offerings : t.offerings[i].cpuOv = 0 /\ t.offerings[i].memOv = 0
+                                                                    /\ t.offerings[i].podsOv = 0 /\ t.offerings[i].ohCpu = 0 /\ t.offerings[i].ohMem = 0
     /\ \A d \in Range(cfg.ds) : Len(d.terms) <= 1 /\ DaemonKeys(d) \subseteq {"arch", "os", "it", "gen"}
 ExactPod(e) ==
     /\ NoInterPod(e) /\ e.vols = <<>>
